@@ -77,8 +77,12 @@ class Call(object):
 
 
 class Trace(object):
+    second = None
+
     def __init__(self, scn, world):
         scn = dict(scn)
+        if scn.get('second'):
+            scn['sources'] = copy.deepcopy(scn.get('sources', []))
         scn['inject'] = [dict((k, v) for k, v in i.items() if k != '_done') for i in scn.get('inject', ())]
         self.scn = scn
         self.world = world
@@ -506,28 +510,57 @@ def run_world(scn, root=None, writer=None, extra_setup=None):
         comp.addSearchers(*real[1])
         comp.addBorrowers(*real[2])
     else:
-        comp.addSources(*[SimSource(t, i, s) for i, s in enumerate(scn.get('sources', ()))])
+        comp.addSources(*[SimSource(t, i, s) for i, s in enumerate(t.scn.get('sources', ()))])
         comp.addSearchers(*[SimSearcher(t, i, s) for i, s in enumerate(scn.get('searchers', ()))])
         comp.addBorrowers(*[TapBorrower(t, i, AnyFileBorrower(SimBorrowReader(t, i, b), genTexts=b.get('genTexts', False)))
                             for i, b in enumerate(scn.get('borrowers', ()))])
     opts = {k: v for k, v in scn.get('options', {}).items() if k in OPTION_NAMES}
+    first = t
     with w:
-        w.begin_op(0, 'compile')
-        try:
-            t.R = comp.compile(*scn['requested'], **opts)
-            w.end_op('ok')
-        except core.StepBudget as e:
-            t.escaped = e
-        except BaseException as e:  # noqa
-            if isinstance(e, (core.WorldTimeout, KeyboardInterrupt)):
-                raise
-            t.escaped = e
-            try:
-                w.end_op('raise:%s' % type(e).__name__)
-            except core.StepBudget:
-                pass
+        _one_call(t, comp, w, 0, scn['requested'], opts)
+        sec = scn.get('second')
+        if sec and not real and t.escaped is None:
+            # a second compile() on the same long-lived compiler, after the sources changed
+            first = copy.copy(t)
+            srcs = list(comp._sources)
+            for i, names in sorted(sec.get('lose', {}).items()):
+                if int(i) < len(srcs):
+                    for n in names:
+                        srcs[int(i)].spec['holds'].pop(n, None)
+            for i, held in sorted(sec.get('gain', {}).items()):
+                if int(i) < len(srcs):
+                    srcs[int(i)].spec['holds'].update(copy.deepcopy(held))
+            scn2 = dict(t.scn)
+            scn2['requested'] = list(sec.get('requested', scn['requested']))
+            scn2['options'] = dict(sec.get('options', {}))
+            scn2['sources'] = [s_.spec for s_ in srcs]
+            t.scn = scn2
+            t.calls = []
+            t.R = None
+            t.escaped = None
+            t.lookup = None
+            w.step_cap *= 2
+            _one_call(t, comp, w, 1, scn2['requested'], {k: v for k, v in scn2['options'].items() if k in OPTION_NAMES})
+            first.second = t
     get_parser()  # reset for the next world
-    return t
+    return first
+
+
+def _one_call(t, comp, w, opn, requested, opts):
+    w.begin_op(opn, 'compile')
+    try:
+        t.R = comp.compile(*requested, **opts)
+        w.end_op('ok')
+    except core.StepBudget as e:
+        t.escaped = e
+    except BaseException as e:  # noqa
+        if isinstance(e, (core.WorldTimeout, KeyboardInterrupt)):
+            raise
+        t.escaped = e
+        try:
+            w.end_op('raise:%s' % type(e).__name__)
+        except core.StepBudget:
+            pass
 
 
 def status_digest(R):
@@ -557,8 +590,11 @@ def outcome(t, viol, nontrivial=None, extra_sig=None):
                       len(scn.get('borrowers', ())), extra_sig], sort_keys=True)
     fp, fph = w.fingerprints(extra=status_digest(R))
     comps = {}
-    for c in t.calls:
+    for c in t.calls + (t.second.calls if t.second is not None else []):
         comps[c.site] = comps.get(c.site, 0) + 1
+    if t.second is not None:
+        w.probe('second-compile-call-on-same-compiler')
+        sig = json.dumps([sig, 'second', sorted(set(str(v) for v in t.second.R.values())) if isinstance(t.second.R, dict) else 'raised'])
     nm = len(scn.get('modules', {}))
     return {
         'violations': viol, 'sig': sig,
@@ -675,6 +711,21 @@ def gen_world(rng, tier, focus='C07'):
     if rng.random() < 0.1:
         opts['writeMibs'] = False
     scn['options'] = opts
+    if rng.random() < 0.15:
+        # second compile() call on the same compiler object after the sources changed
+        gain, lose = {}, {}
+        for name in names:
+            if rng.random() < 0.4:
+                i = rng.randrange(ns)
+                if name in sources[i]['holds']:
+                    lose.setdefault(str(i), []).append(name)
+                else:
+                    gain.setdefault(str(i), {})[name] = {'o': 'ok'}
+        o2 = {}
+        for nm, p_ in (('noDeps', .15), ('rebuild', .2), ('genTexts', .2), ('ignoreErrors', .4)):
+            if rng.random() < p_:
+                o2[nm] = True
+        scn['second'] = {'requested': list(req) if rng.random() < 0.6 else [rng.choice(names)], 'options': o2, 'gain': gain, 'lose': lose}
     if focus in ('C07', 'C08') and rng.random() < 0.12:
         # names spelled in another case in IMPORTS; sources resolve them like the file readers do and report the
         # matching variant as alias
@@ -689,6 +740,7 @@ def gen_world(rng, tier, focus='C07'):
         # the same scenario over the real FileReader / AnyFileSearcher / AnyFileBorrower / FileWriter on the
         # interposed filesystem; component failures then come from injected errno instead of outcome tables
         scn['realfs'] = True
+        scn.pop('second', None)
         scn.pop('inject', None)
         scn.pop('writer_fail', None)
         scn['codegen'] = 'json'
@@ -709,6 +761,19 @@ def shrink_world(scn):
         s = copy.deepcopy(scn)
         s.pop('rate')
         yield s
+    if scn.get('second'):
+        s = copy.deepcopy(scn)
+        s.pop('second')
+        yield s
+        for k2 in ('gain', 'lose'):
+            for i in sorted(scn['second'].get(k2, {})):
+                s = copy.deepcopy(scn)
+                del s['second'][k2][i]
+                yield s
+        for k2 in sorted(scn['second'].get('options', {})):
+            s = copy.deepcopy(scn)
+            del s['second']['options'][k2]
+            yield s
     for key in ('inject', 'writer_fail'):
         for i in range(len(scn.get(key, []))):
             s = copy.deepcopy(scn)
@@ -809,6 +874,7 @@ def size(scn):
 def gen_dry_world(rng, tier):
     scn = gen_world(rng, tier, focus='C07')
     scn['mode'] = 'compile'
+    scn.pop('second', None)
     scn.pop('inject', None)
     scn.pop('writer_fail', None)
     scn['realwriter'] = rng.choice(['file', 'filejson', 'py'])
